@@ -6,6 +6,7 @@ CONSTANTS
   MaxDepth = 2
   MaxLen = 6
   Forms = {"plain", "open", "neg", "over"}
+  ColFamily = "tuples"
   PairFamily = "cuts"
 INVARIANT TypeOK
 INVARIANT Rectangular
